@@ -35,10 +35,25 @@ var smMagnitudes = []string{"0", "1", "9", "10", "007", "00", "0010", "99", "100
 func DecorateWithSourceMaps(g *Graph, r *rand.Rand) *SMDoc {
 	d := &SMDoc{Loc: map[string]SMLoc{}, PropOnly: map[string]bool{}, NodeFiles: map[string]string{}}
 	d.RootFile = fmt.Sprintf("file:///specs/root%d.yaml", r.Intn(100))
+	if r.Intn(5) == 0 {
+		// locations are recorded strings, not necessarily file:// URIs: relative and absolute paths, other schemes
+		d.RootFile = pick(r, "specs/root.yaml", "/abs/specs/root.raml", "C:\\specs\\api.raml", "urn:uuid:0b9d6c4e-root", "../up/root.yaml", "root with blank.yaml")
+	}
 	nAdd := r.Intn(4)
 	for k := 0; k < nAdd; k++ {
-		d.Files = append(d.Files, fmt.Sprintf("file:///specs/lib%d.raml", k))
+		f := fmt.Sprintf("file:///specs/lib%d.raml", k)
+		switch {
+		case k == 1 && r.Intn(4) == 0:
+			f = "" // an additional location recorded as the empty string is a location too
+		case r.Intn(6) == 0:
+			f = fmt.Sprintf("libs/relative%d.raml", k)
+		}
+		d.Files = append(d.Files, f)
 	}
+	// one SourceMap node for all the elements (each lexical entry names its element) instead of one per element
+	shared := r.Intn(5) == 0
+	sharedID := EX + "unit#/shared-source-map"
+	var sharedLex []any
 	arr := make([]any, 0, len(g.Nodes)*3)
 	extra := []any{}
 	fileElems := map[string][]string{}
@@ -84,8 +99,13 @@ func DecorateWithSourceMaps(g *Graph, r *rand.Rand) *SMDoc {
 					lex[a], lex[b] = lex[b], lex[a]
 				}
 			}
-			extra = append(extra, map[string]any{"@id": smID, "@type": []any{nsSM + "SourceMap"}, nsSM + "lexical": lex})
-			o[nsSM+"sources"] = []any{map[string]any{"@id": smID}}
+			if shared {
+				sharedLex = append(sharedLex, lex...)
+				o[nsSM+"sources"] = []any{map[string]any{"@id": sharedID}}
+			} else {
+				extra = append(extra, map[string]any{"@id": smID, "@type": []any{nsSM + "SourceMap"}, nsSM + "lexical": lex})
+				o[nsSM+"sources"] = []any{map[string]any{"@id": smID}}
+			}
 		case mode < 8 && len(n.Props) > 0: // property-level entries only: no location for the node
 			d.PropOnly[n.ID] = true
 			smID := fmt.Sprintf("%s/source-map", n.ID)
@@ -102,6 +122,9 @@ func DecorateWithSourceMaps(g *Graph, r *rand.Rand) *SMDoc {
 		default: // no lexical information at all
 		}
 		arr = append(arr, o)
+	}
+	if len(sharedLex) > 0 {
+		extra = append(extra, map[string]any{"@id": sharedID, "@type": []any{nsSM + "SourceMap"}, nsSM + "lexical": Shuffled(r, sharedLex)})
 	}
 	if r.Intn(6) == 0 {
 		d.NoFileInformation = true
